@@ -289,6 +289,15 @@ package dag
 //@   ensures [success-means-present-or-fully-added] isNilIface(result) ==> ret(call (*dag).isPresent #1) == true
 //@        || (did(call (*state).updateState #1) && isNilIface(ret(call (*state).updateState #1)))
 
+// The rollback hook reloads the in-memory state, and not with the context of the failed call (a
+// rollback is what happens when that context ends).
+//@ func context.Background
+//@   trusted
+//@   benign
+//@ func (*state).Add$3
+//@   prop C08
+//@   ensures [reloaded-with-a-live-context] did(call (*state).loadState #1) && arg(call (*state).loadState #1, 0) == s && arg(call (*state).loadState #1, 1) == ret(call context.Background #1)
+
 //@ func (*state).Add$4
 //@   prop C06 C14
 //@   call (*state).notify #* requires [notify-only-when-added] txAdded
